@@ -17,7 +17,9 @@ Inductive fm_op :=
 | FSize | FEmpty
 | FContains (k : N)
 | FErase (k : N)
-| FClear.
+| FClear
+| FAtC (k : N)            (* cm.at(k)        through a const FlatMap & of the same map *)
+| FAtIndexC (i : N).      (* cm.at_index(i)  through a const FlatMap &                 *)
 
 Inductive fm_out :=
 | OVal (v : N) | OThrow | OItem (k v : N) | ONum (n : N) | OBool (b : bool) | OUnit.
@@ -59,6 +61,18 @@ Definition fm_step (m : fm) (o : fm_op) : fm * fm_out :=
   | FContains k => (m, OBool (match fm_lookup m k with Some _ => true | None => false end))
   | FErase k => (fm_erase m k, OUnit)
   | FClear => ([], OUnit)
+  | FAtC k => (m, match fm_lookup m k with Some v => OVal v | None => OThrow end)
+  | FAtIndexC i => (m, match nth_error m (N.to_nat i) with
+                       | Some (k, v) => OItem k v
+                       | None => OThrow end)
+  end.
+
+(* the operations that go through a const member function (size, empty, contains have only a
+   const version; at / at_index have a const overload; operator[] const cannot be instantiated) *)
+Definition fm_is_const (o : fm_op) : bool :=
+  match o with
+  | FAtC _ | FAtIndexC _ | FSize | FEmpty | FContains _ => true
+  | _ => false
   end.
 
 Definition fm_run (ops : list fm_op) : fm * list (fm_out * fm) :=
